@@ -55,6 +55,30 @@ CHECKS = {
              "(exact ties excluded). Peak counts cross the 4096 static chunk size.",
         design_ref="DESIGN.md section 4, C07",
         note=TRUST_A),
+    "C06": dict(
+        engine="simomp",
+        technique="deterministic simulation of the memory seam: serial scoring/refinement kernels on simulator-owned, "
+                  "seed-filled stacks, complementary-garbage differential, strict bounds; oracle = definition evaluated "
+                  "in numpy (count bit-exact, least squares in extended precision)",
+        text="score, score_and_refine and refine_assigned have no schedule; their only nondeterminism is memory they "
+             "did not initialise (stack accumulators, outputs). Each call runs twice on stacks/outputs filled with "
+             "complementary garbage and must agree bitwise, stay inside its arguments, and return the count, mean "
+             "squared error and (R H^-1)^-1 of the definition; singular selections must leave the matrix untouched.",
+        design_ref="DESIGN.md section 4, C06",
+        note=TRUST_A + " The input quantifier (UBIs, peak lists, tolerances) is sampled."),
+    "C01": dict(
+        engine="simomp",
+        technique="deterministic simulation: geometry kernels under seeded team schedules and garbage outputs, at "
+                  "kernel level (strict) and through columnfile.updateGeometry/updateGV, Ctransform, get_local_gv on "
+                  "the instrumented module under an independent schedule and after in-place parameter edits; "
+                  "oracle = bitwise agreement between routes + tolerance agreement with the Python formulas and the "
+                  "numba copies",
+        text="The simulation decides the part of the statement that depends on team size, chunking, interleaving, "
+             "previous buffer content and the history of a long-lived columnfile; the (parameters x peaks) "
+             "quantifier is sampled by a swarm generator (all 8 flips, omegasign, every tilt/wedge/chi/translation "
+             "on or off).",
+        design_ref="DESIGN.md section 4, C01",
+        note=TRUST_A),
 }
 
 NOT_APPLICABLE = {
